@@ -16,6 +16,9 @@ from .c01 import norm_cont_rule
 
 
 def run(repo, R):
+    R.rule("PITFALL", "no result buffer typed after an input, no real cast of a transformation, no unbuffered accumulation / first-occurrence scatter through np.unique")
+    from ..pitfalls import report as _pitfalls
+    _pitfalls(repo, R, ['gbasis.contractions', 'gbasis.integrals', 'gbasis.evals._deriv'], kinds=('ACCUM',))
     R.rule("LIN", "in every kernel each coefficient matrix is used exactly once, as tensordot over its own primitive axis, so blocks are multilinear "
                   "in the coefficients and the segment axis is the free column index")
     R.rule("KSEP", "a primitive axis is only broadcast and finally contracted (or fully reduced by min/max): never indexed, sliced or partially reduced")
